@@ -414,3 +414,28 @@ func replayCallGraph(n *Native, job *Job, v *Violation) (ReplayResult, bool) {
 	return ReplayResult{Cmd: "ti " + strings.Join(args, " "), Reproduced: !hasLine(out, want, ""),
 		Observed: fmt.Sprintf("expected a line %q in %q", want, tail(out, 700))}, true
 }
+
+// replayNamespaces re-judges C27 counterexamples natively.
+func replayNamespaces(n *Native, job *Job, v *Violation) (ReplayResult, bool) {
+	if v.Kind != "assert" {
+		return ReplayResult{}, false
+	}
+	if v.Witness["C27.variant"] != "0" {
+		return replayPair(n, job, v)
+	}
+	ca, okA := concretizeSym(v.Witness["srcA"], v.Witness)
+	cb, okB := concretizeSym(v.Witness["srcB"], v.Witness)
+	if !okA || !okB {
+		return ReplayResult{Observed: "cannot make the skeleton concrete"}, true
+	}
+	var glines int
+	fmt.Sscanf(v.Witness["C27.glines"], "%d", &glines)
+	cfg := nativeConfigFor(n, job, ca)
+	outA, _, _ := n.RunTi(map[string]string{"a.rb": ca}, []string{"./a.rb"}, cfg)
+	outB, _, _ := n.RunTi(map[string]string{"a.rb": cb}, []string{"./a.rb"}, cfg)
+	nb := dropShift(dropShift(strings.ReplaceAll(outB, "Mm::", ""), glines+2, 1), 1, 1)
+	v.Witness["native-program-A"] = ca
+	v.Witness["native-program-B"] = cb
+	return ReplayResult{Cmd: "ti ./a.rb on the top-level and on the module-wrapped program", Reproduced: nb != outA,
+		Observed: fmt.Sprintf("top level reports %q; wrapped (rows shifted back, Mm:: removed) reports %q", outA, nb)}, true
+}
